@@ -23,6 +23,7 @@ import itertools
 import logging
 import random
 import struct
+from collections.abc import Callable
 from typing import TYPE_CHECKING, Any, cast
 
 from bumble import hci, link, ll, lmp
@@ -1372,6 +1373,13 @@ class Controller:
         future.add_done_callback(on_response)
         return None
 
+    def _notify_peer_of_teardown(self, send: Callable[[], Any]) -> None:
+        # The peer may have left the link already: the local teardown still completes
+        try:
+            send()
+        except InvalidArgumentError:
+            logger.debug('peer not reachable, tearing down locally')
+
     def on_hci_disconnect_command(self, command: hci.HCI_Disconnect_Command) -> None:
         '''
         See Bluetooth spec Vol 4, Part E - 7.1.6 Disconnect Command
@@ -1383,9 +1391,10 @@ class Controller:
         handle = command.connection_handle
         if connection := self.find_classic_connection_by_handle(handle):
             if self.link:
-                self.send_lmp_packet(
-                    connection.peer_address,
-                    lmp.LmpDetach(command.reason),
+                self._notify_peer_of_teardown(
+                    lambda: self.send_lmp_packet(
+                        connection.peer_address, lmp.LmpDetach(command.reason)
+                    )
                 )
                 self.on_classic_disconnected(connection.peer_address, command.reason)
             else:
@@ -1393,7 +1402,11 @@ class Controller:
                 del self.classic_connections[connection.peer_address]
         elif connection := self.find_le_connection_by_handle(handle):
             if self.link:
-                connection.send_ll_control_pdu(ll.TerminateInd(command.reason))
+                self._notify_peer_of_teardown(
+                    lambda: connection.send_ll_control_pdu(
+                        ll.TerminateInd(command.reason)
+                    )
+                )
                 self.on_le_disconnected(connection, command.reason)
             else:
                 # Remove the connection
